@@ -197,7 +197,10 @@ def run_property(pid, tier, seed):
     try:
         return _run_property(pid, sp, tier, seed, my_findings, tmpdir, t0)
     finally:
-        shutil.rmtree(tmpdir, ignore_errors=True)
+        if os.environ.get("VERIF_KEEP_TMP"):
+            log("kept " + tmpdir)
+        else:
+            shutil.rmtree(tmpdir, ignore_errors=True)
 
 
 def _run_property(pid, sp, tier, seed, my_findings, tmpdir, t0):
@@ -287,9 +290,9 @@ def _run_property(pid, sp, tier, seed, my_findings, tmpdir, t0):
                 pass
             cur = glob.glob(os.path.join(ji["faildir"], "crash-*")) + glob.glob(os.path.join(ji["faildir"], "current-*"))
             if cur and r["rc"] not in (2,):
-                raw_fails.append(dict(ji=ji, file=cur[0], sig="process-died:%s" % ji["job"]["h"], cls="CRASH", msg="worker process died while executing this case (rc=%s): %s" % (r["rc"], tail[-600:])))
+                raw_fails.append(dict(ji=ji, file=cur[0], sig="process-died:%s" % ji["job"]["h"], cls="CRASH", msg="worker process died while executing this case (rc=%s after %.0fs): %s" % (r["rc"], r["wall"], tail[-600:])))
             else:
-                errors.append("worker %d (%s) produced no result (rc=%s): %s" % (ji["idx"], jk, r["rc"], tail[-800:]))
+                errors.append("worker %d (%s) produced no result (rc=%s, %.0fs): %s" % (ji["idx"], jk, r["rc"], r["wall"], tail[-800:]))
             continue
         for k in tot:
             tot[k] += int(res.get(k, 0))
@@ -365,7 +368,7 @@ def _run_property(pid, sp, tier, seed, my_findings, tmpdir, t0):
                         last = out
                 reps = "%d/3" % n_fail
                 if n_fail == 0:
-                    errors.append("failure %s did not reproduce in replay (0/3) - harness state problem, not counted" % f["sig"])
+                    errors.append("failure %s did not reproduce in replay (0/3) - harness state problem, not counted: %s" % (f["sig"], f["msg"][-300:]))
                     continue
                 for ln in last.splitlines():
                     if ln.startswith("RESULT: FAIL"):
